@@ -51,6 +51,27 @@ def main():
         if bytes(it.read_buffer(p[0], 32)) != bytes.fromhex("c3da55379de9c6908e94ea4df28d084f32eccf03491c71f754b4075577a28552"):
             print("irsym selftest MISMATCH x25519"); ok = False
         steps = it.steps
+        # AES-NI / PCLMULQDQ intrinsic models: SP 800-38D (McGrew-Viega) test case 16 through the real AES-NI unit, and
+        # the independent specification model (irsym/gcm_spec.py) on the same vector
+        ll = build.build_module(os.path.join(wd, "d"), ["crypto_aead/aes256gcm/aesni/aead_aes256gcm_aesni.c", "crypto_verify/verify.c", "sodium/utils.c"])
+        mod = ir.parse_module(open(ll).read())
+        key = bytes.fromhex("feffe9928665731c6d6a8f9467308308feffe9928665731c6d6a8f9467308308")
+        iv = bytes.fromhex("cafebabefacedbaddecaf888")
+        pt = bytes.fromhex("d9313225f88406e5a55909c5aff5269a86a7a9531534f7da2e4c303d8a318a721c3c0c95956809532fcf0e2449a6b525b16aedf5aa0de657ba637b39")
+        ad = bytes.fromhex("feedfacedeadbeeffeedfacedeadbeefabaddad2")
+        ect = bytes.fromhex("522dc1f099567d07f47f37a32a84427d643a8cdcbfe5c0c97598a2bd2555d1aa8cb08e48590dbb3da7b08b1056828838c5f61e6393ba7a0abcc9f662")
+        etag = bytes.fromhex("76fc6ece0f4e1768cddf8853bb2d551b")
+        it, p = run(mod, "crypto_aead_aes256gcm_encrypt_detached", [bytes(len(pt)), bytes(16), bytes(8), pt, len(pt), ad, len(ad), 0, iv, key])
+        if bytes(it.read_buffer(p[0], len(pt))) != ect or bytes(it.read_buffer(p[1], 16)) != etag:
+            print("irsym selftest MISMATCH aes256gcm (AES-NI / PCLMULQDQ models)"); ok = False
+        from . import aig, gcm_spec
+        aig.reset(True)
+        B = lambda bs: [gcm_spec.cbyte(x) for x in bs]
+        c2, t2 = gcm_spec.gcm_encrypt(B(key), B(iv), B(pt), B(ad))
+        V = lambda bs: bytes(sum(l << i for i, l in enumerate(b)) for b in bs)
+        if V(c2) != ect or V(t2) != etag:
+            print("irsym selftest MISMATCH gcm_spec"); ok = False
+        print("irsym AES-NI/PCLMULQDQ models and the SP 800-38D specification model: test case 16 reproduced")
         print("irsym interpreter: SHA-256/512, ChaCha20 and X25519 known-answer vectors reproduced (%d IR steps for the ladder)" % steps)
     finally:
         shutil.rmtree(wd, ignore_errors=True)
